@@ -39,6 +39,7 @@ type Prog struct {
 	allFns  map[*ssa.Function]bool
 	modFns  []*ssa.Function // every source function of the module (incl. anonymous), sorted
 	NormalizeLog []string
+	Normalised   []*ast.File // syntax of the packages that were rewritten by the normaliser
 	fnDecl  map[*ssa.Function]*ast.FuncDecl
 	Overlay map[string][]byte
 }
@@ -213,6 +214,32 @@ func LoadProg(dir string, overlay map[string][]byte) (*Prog, error) {
 					}
 				}
 			}
+			if total >= 0 {
+				// scalar replacement of newly introduced local structs (sroa.go)
+				var snap []*ast.File
+				for _, f := range view.Syntax {
+					snap = append(snap, cloneAST(f).(*ast.File))
+				}
+				if n, log := sroaPackage(view, known[rel(pk.PkgPath)]); n > 0 {
+					tp2, info2, err := recheck(pk.PkgPath, pk.Fset, view.Syntax, imp, pk.TypesSizes)
+					if err == nil {
+						view.Types, view.TypesInfo = tp2, info2
+						p.NormalizeLog = append(p.NormalizeLog, log...)
+						if total == 0 {
+							total = 1
+						}
+					} else {
+						p.NormalizeLog = append(p.NormalizeLog, fmt.Sprintf("%s: struct splitting abandoned (%v)", rel(pk.PkgPath), err))
+						view.Syntax = snap
+						tp3, info3, err3 := recheck(pk.PkgPath, pk.Fset, snap, imp, pk.TypesSizes)
+						if err3 != nil {
+							return nil, fmt.Errorf("load: re-check of %s failed: %v", pk.PkgPath, err3)
+						}
+						view.Types, view.TypesInfo = tp3, info3
+						total = -1
+					}
+				}
+			}
 			if total == 0 && depChanged {
 				tp2, info2, err := recheck(pk.PkgPath, pk.Fset, view.Syntax, imp, pk.TypesSizes)
 				if err != nil {
@@ -237,6 +264,7 @@ func LoadProg(dir string, overlay map[string][]byte) (*Prog, error) {
 		files, info, tp := pk.Syntax, pk.TypesInfo, pk.Types
 		if o := over[pk.PkgPath]; o != nil {
 			files, info, tp = o.files, o.info, o.tp
+			p.Normalised = append(p.Normalised, o.files...)
 		}
 		if info == nil {
 			files = nil
